@@ -522,7 +522,7 @@ err_t belsRecover(octet s[], size_t count, size_t len, const octet si[],
 		ppExGCD(d, u, v, f, n + 1, g, i * n + 1, stack);
 		ASSERT(u[i * n] == 0 && v[n] == 0);
 		// d(x) != 1? 
-		if (wwCmpW(d, i * n + 1, 1) != 0)
+		if (wwCmpW(d, n + 1, 1) != 0)
 		{
 			blobClose(state);
 			return ERR_BAD_PUBKEY;
@@ -634,7 +634,7 @@ err_t belsRecover2(octet s[], size_t count, size_t len, const octet si[])
 		ppExGCD(d, u, v, f, n + 1, g, i * n + 1, stack);
 		ASSERT(u[i * n] == 0 && v[n] == 0);
 		// d(x) != 1? 
-		if (wwCmpW(d, i * n + 1, 1) != 0)
+		if (wwCmpW(d, n + 1, 1) != 0)
 		{
 			blobClose(state);
 			return ERR_BAD_PUBKEY;
